@@ -17,6 +17,15 @@ def dump_sql(path):
     """{'events': {id_hex: event dict}, 'tags': sorted [(id_hex,name,value)], 'raw': ...}"""
     con = sqlite3.connect("file:%s?mode=ro" % path, uri=True, timeout=30)
     try:
+        con.execute("SELECT count(*) FROM sqlite_master").fetchone()
+    except sqlite3.OperationalError as e:
+        # a WAL database whose last writer was killed needs recovery on the next open, and a read-only connection
+        # may not do that ("attempt to write a readonly database"): any ordinary reader would - so does this one
+        con.close()
+        if "readonly" not in str(e):
+            raise
+        con = sqlite3.connect(path, timeout=30)
+    try:
         events = {}
         for row in con.execute(
             "SELECT id, created_at, kind, pubkey, tags, sig, content, typeof(created_at), typeof(kind), typeof(content) FROM events"
